@@ -22,9 +22,12 @@ import (
 )
 
 func runReadersVsCompactions(c *Ctx) error {
-	dur := 3 * time.Second
+	dur := 20 * time.Second // C03: a flush completing inside NewIterator is rarer still
+	if c.Prop == "C01" {
+		dur = 10 * time.Second // the window between a compaction's two level updates is a few microseconds wide
+	}
 	if c.N >= 1000 {
-		dur = 20 * time.Second
+		dur = 60 * time.Second
 	}
 	if v := os.Getenv("VERIF_STRESS_SECONDS"); v != "" {
 		var n int
